@@ -1,6 +1,8 @@
 #!/usr/bin/env python3
-"""Run the registered check of each seeded mutant's property against a scratch worktree with the mutant applied.
-usage: tools/seeded.py [ids...]   (default: all under seeded/).  Records the outcome in seeded/<id>/result.json."""
+"""Run the registered check of each seeded change's property against a scratch worktree with the change applied.
+usage: tools/seeded.py [--harmless] [ids...]   (default: all under seeded/ resp. harmless/).
+seeded/<id>/   = a change that BREAKS the property (expected: check exits 1); harmless/<id>/ = a behaviour-preserving refactor of the
+anchored code (expected: check exits 0, no VIOLATION line).  Records the outcome in <dir>/<id>/result.json."""
 import json
 import os
 import subprocess
@@ -8,6 +10,8 @@ import sys
 
 VERIF = os.path.dirname(os.path.dirname(os.path.abspath(__file__)))
 WT = "/tmp/wt_seeded"
+DIR = "seeded"
+RUN_DEMO = False
 
 
 def sh(cmd, **kw):
@@ -15,13 +19,19 @@ def sh(cmd, **kw):
 
 
 def main():
-    ids = sys.argv[1:] or sorted(os.listdir(os.path.join(VERIF, "seeded")))
+    global DIR, WT, RUN_DEMO
+    args = sys.argv[1:]
+    if args and args[0] == "--demo":
+        RUN_DEMO, args = True, args[1:]
+    if args and args[0] == "--harmless":
+        DIR, WT, args = "harmless", "/tmp/wt_harmless", args[1:]
+    ids = args or sorted(os.listdir(os.path.join(VERIF, DIR)))
     sh("git -C /repo worktree remove --force %s" % WT)
     r = sh("git -C /repo worktree add --detach %s HEAD" % WT)
     assert r.returncode == 0, r.stdout
     try:
         for sid in ids:
-            d = os.path.join(VERIF, "seeded", sid)
+            d = os.path.join(VERIF, DIR, sid)
             meta = json.load(open(os.path.join(d, "meta.json")))
             prop = meta.get("property") or sid.split("-")[0]
             sh("git -C %s reset -q --hard && git -C %s clean -fdq" % (WT, WT))
@@ -32,9 +42,15 @@ def main():
                 print(sid, "PATCH DOES NOT APPLY:", r.stdout[-300:])
                 json.dump({"applies": False, "note": r.stdout[-500:]}, open(os.path.join(d, "result.json"), "w"), indent=1)
                 continue
-            demo = sh("cd /tmp && PYTHONPATH=%s/src /venv/bin/python %s/demo.py" % (WT, d), timeout=3000)
+            script = "demo.py" if os.path.exists(os.path.join(d, "demo.py")) else "equiv.py"
+            if not RUN_DEMO:
+                class demo:   # the authors of the changes ran their demonstrations themselves (meta.json); re-running them is optional
+                    returncode = None
+            else:
+              demo = sh("cd %s && NUMBA_NUM_THREADS=4 PYTHONPATH=%s/src /venv/bin/python %s/%s" % (d if script == "equiv.py" else "/tmp", WT, d, script), timeout=3000)
             props = [prop] + [p for p in meta.get("also_check", [])]
-            res = {"applies": True, "demo_exit_with_mutant": demo.returncode, "checks": {}}
+            res = {"applies": True, ("demo_exit_with_mutant" if DIR == "seeded" else "equiv_exit_with_refactor"): demo.returncode,
+                   "expected_check_exit": 1 if DIR == "seeded" else 0, "checks": {}}
             for p in props:
                 c = sh("cd %s && HITEN_REPO=%s ./check %s --tier quick" % (VERIF, WT, p), timeout=3600)
                 lines = [l for l in c.stdout.splitlines() if l.startswith("VIOLATION") or l.startswith("KNOWN-FINDING")]
